@@ -37,45 +37,109 @@ Proof. exact claim_finalizer_nodes_gone_l. Qed.
 Print Assumptions claim_finalizer_nodes_gone.
 
 (* Full property for the NodeClaim ("... and the provider reports the instance not found if it was ever launched"):
-   holds in every world in which an existing instance is recorded on the claim. *)
+   it holds exactly in the worlds in which an existing instance is recorded on the claim — the weakest premise. *)
 Theorem claim_finalizer_removed_only_if_partial : forall (w : world) (f : fault) es r k,
-  launched_persisted w ->
   claim_reconcile w f = (es, r, k) -> In (ERmClaimFin true) es ->
-  (exists pre, es = pre ++ [ERmClaimFin true]) /\ claim_fin_ok (instant w es).
-Proof. exact claim_finalizer_removed_only_if_partial_l. Qed.
+  (claim_fin_ok (instant w es) <-> recorded_or_absent w).
+Proof. exact claim_finalizer_ok_iff_l. Qed.
 Print Assumptions claim_finalizer_removed_only_if_partial.
 
 (* FINDING: without that guard it is false. From a clean world (claim not launched, no instance): the launch
    reconcile creates the instance, the status patch that records the provider id fails, the claim is deleted; the next
    reconcile finalizes with an empty provider id, never asks the provider and removes the finalizer. *)
 Theorem claim_finalizer_removed_only_if_refuted :
-  launched_persisted leak_w0 /\
+  accounted leak_w0 /\ finalizer_before_launch leak_w0 /\
   let w := run leak_w0 leak_ops in
   exists es r k, claim_reconcile w None = (es, r, k) /\ In (ERmClaimFin true) es /\ ~ claim_fin_ok (instant w es).
 Proof. exact claim_finalizer_removed_only_if_refuted_l. Qed.
 Print Assumptions claim_finalizer_removed_only_if_refuted.
 
 (* A completed deletion never orphans a cloud instance: over all histories (reconciles of both controllers in any
-   order, any fault in each, pods / attachments / the instance disappearing at any time, clock, user deletes,
-   restarts) in which every launch persisted what it created, no step makes the claim object disappear while the
-   provider still holds the instance. *)
+   order, fresh or from a lagging cache, any fault in each — including the patches that record the provider id —,
+   pods / attachments / the instance disappearing at any time, clock, user deletes, restarts) in which nobody
+   deletes the NodeClaim while it holds an instance it has not recorded, no step makes the claim object disappear
+   while the provider still holds the instance. *)
 Theorem no_orphan_partial : forall (w0 : world) (ops : list op) (o : op),
-  launched_persisted w0 -> forallb persists (ops ++ [o]) = true ->
+  accounted w0 -> deletes_recorded w0 (ops ++ [o]) = true ->
   orphaned (run w0 ops) (run w0 (ops ++ [o])) = false.
-Proof. exact no_orphan_partial_l. Qed.
+Proof. exact no_orphan_weakest_l. Qed.
 Print Assumptions no_orphan_partial.
 
+(* That premise cannot be weakened: deleting a claim that holds an unrecorded instance orphans it at the next
+   fault-free finalize. *)
+Theorem delete_unrecorded_orphans : forall now ns reg an dr vo te tw ps vs s k,
+  inst_absent s = false ->
+  let w := W now ns (Some (C true true None false reg None an dr vo te)) tw ps vs s k in
+  orphaned w (run w [EnvDelClaim; RClaim None]) = true.
+Proof. exact delete_unrecorded_orphans_l. Qed.
+Print Assumptions delete_unrecorded_orphans.
+
 Theorem no_orphan_refuted :
-  launched_persisted leak_w0 /\
+  accounted leak_w0 /\
   orphaned (run leak_w0 leak_ops) (run leak_w0 (leak_ops ++ [RClaim None])) = true.
 Proof. exact no_orphan_refuted_l. Qed.
 Print Assumptions no_orphan_refuted.
 
-(* The invariant that carries no_orphan is inductive over every history. *)
-Theorem launched_persisted_invariant : forall (ops : list op) (w : world),
-  launched_persisted w -> forallb persists ops = true -> launched_persisted (run w ops).
-Proof. exact run_persisted. Qed.
-Print Assumptions launched_persisted_invariant.
+(* The invariant that carries no_orphan is inductive over every such history. *)
+Theorem accounted_invariant : forall (ops : list op) (w : world),
+  accounted w -> deletes_recorded w ops = true -> accounted (run w ops).
+Proof. exact run_accounted. Qed.
+Print Assumptions accounted_invariant.
+
+(* The provider never resurrects an instance: Gone stays Gone in every step except a launch for a claim that is
+   neither deleting nor launched (Running -> ShuttingDown -> Gone are environment ops and may happen at any time). *)
+Theorem gone_is_final : forall (w : world) (o : op), w_inst w = IGone ->
+  (forall f c, (o = RClaim f \/ exists old, o = RClaimStale old f) -> w_claim w = Some c -> c_del c <> None \/ c_pid c = true) ->
+  w_inst (fst (step w o)) = IGone.
+Proof. exact gone_is_final_l. Qed.
+Print Assumptions gone_is_final.
+
+(* Duplicate NodeClaims for one provider id (and, symmetrically, the duplicate becoming the only claim) are part of
+   the model: all theorems above quantify over worlds with a second claim object. With two recorded claims the node
+   has no (unique) NodeClaim: [node_finalizer_removed_only_if] does not apply, [node_finalizer_claimless] does —
+   cordon, drain and volume clauses hold, the provider's confirmation is skipped (witness). The instance is still
+   never orphaned: [no_orphan_partial] is about the claim object and holds in these worlds too.
+   Two Nodes that share one NodeClaim are ordinary worlds ([w_nodes] is a list): every clause is per node. *)
+Theorem duplicates_are_claimless : forall w, duplicates w = true -> visible_claim w = None.
+Proof. exact duplicates_claimless_l. Qed.
+Print Assumptions duplicates_are_claimless.
+
+Theorem duplicate_claims_witness :
+  duplicates dup_w = true /\ node_has_claim_b dup_w = false /\
+  node_reconcile dup_w 0 None = ([ERmNodeFin 0 true], ROk) /\
+  node_fin_ok_b dup_w (instant dup_w [ERmNodeFin 0 true]) 0 = false /\
+  w_inst (fst (step dup_w (RNode 0 None))) = IRunning.
+Proof. exact duplicate_claims_witness_l. Qed.
+Print Assumptions duplicate_claims_witness.
+
+(* Lagging cache: the node reconcile handed ANY older version of the Node still obeys the theorem, except that
+   "not Ready" is then the older version's word ... *)
+Theorem node_finalizer_stale_read : forall (w : world) (old m : node) (f : fault) es r j,
+  get_node (n_id old) (w_nodes w) = Some m -> older_node old m = true ->
+  node_reconcile_at w old f = (es, r) -> In (ERmNodeFin j true) es ->
+  j = n_id old /\ (exists pre, es = pre ++ [ERmNodeFin (n_id old) true]) /\
+  (node_has_claim w -> node_fin_ok_seen w (instant w es) (n_id old) (n_ready old)).
+Proof. exact node_finalizer_stale_read_l. Qed.
+Print Assumptions node_finalizer_stale_read.
+
+(* ... and that exception is real (witness: cached NotReady, now Ready, instance gone, pod not drained). *)
+Theorem stale_not_ready_witness :
+  let w := W 1000 [N 0 true true true false false true] (Some (C true true (Some 990) true true None ANone DNone VNone false)) None
+             [P 0 0 false false false None []] [] IGone false in
+  let old := N 0 true true true false false false in
+  older_node old (N 0 true true true false false true) = true /\
+  node_reconcile_at w old None = ([EProvGet PNotFound; ERmNodeFin 0 true], ROk) /\
+  node_fin_ok_b w (instant w [EProvGet PNotFound; ERmNodeFin 0 true]) 0 = false.
+Proof. exact stale_not_ready_witness_l. Qed.
+Print Assumptions stale_not_ready_witness.
+
+(* The lifecycle reconcile handed an older version of the NodeClaim never removes the finalizer (all its patches
+   are optimistic-locked): a removal comes from the current version, to which the theorems above apply. *)
+Theorem claim_finalizer_stale_read : forall (w : world) (old : claim) (f : fault) es r k,
+  claim_reconcile_at w old f = (es, r, k) -> In (ERmClaimFin true) es ->
+  w_claim w = Some old /\ claim_reconcile w f = (es, r, k).
+Proof. exact claim_finalizer_stale_read_l. Qed.
+Print Assumptions claim_finalizer_stale_read.
 
 (* Nothing else takes the finalizers off: over every op of the transition system (environment events, reconciles
    of other nodes, the other controller, any fault), a Node's termination finalizer disappears only in a reconcile
@@ -83,13 +147,15 @@ Print Assumptions launched_persisted_invariant.
    which the theorems above apply. *)
 Theorem node_finalizer_only_by_reconcile : forall (w : world) (o : op) (i : Z),
   node_has_fin i w = true -> node_has_fin i (fst (step w o)) = false ->
-  exists f, o = RNode i f /\ In (ERmNodeFin i true) (fst (snd (step w o))).
+  (exists f, o = RNode i f /\ In (ERmNodeFin i true) (fst (snd (step w o)))) \/
+  (exists old f, o = RNodeStale old f /\ n_id old = i /\ In (ERmNodeFin i true) (fst (snd (step w o)))).
 Proof. exact node_finalizer_only_by_reconcile_l. Qed.
 Print Assumptions node_finalizer_only_by_reconcile.
 
 Theorem claim_finalizer_only_by_reconcile : forall (w : world) (o : op),
   claim_has_fin w = true -> claim_has_fin (fst (step w o)) = false ->
-  exists f, o = RClaim f /\ In (ERmClaimFin true) (fst (snd (step w o))).
+  (exists f, o = RClaim f /\ In (ERmClaimFin true) (fst (snd (step w o)))) \/
+  (exists old f, o = RClaimStale old f /\ In (ERmClaimFin true) (fst (snd (step w o)))).
 Proof. exact claim_finalizer_only_by_reconcile_l. Qed.
 Print Assumptions claim_finalizer_only_by_reconcile.
 
@@ -98,13 +164,17 @@ Theorem node_oracle_spec : forall w0 w i, node_fin_ok_b w0 w i = true <-> node_f
 Proof. exact node_fin_ok_b_spec. Qed.
 Print Assumptions node_oracle_spec.
 
+Theorem node_oracle_seen_spec : forall w0 w i nr, node_fin_ok_seen_b w0 w i nr = true <-> node_fin_ok_seen w0 w i nr.
+Proof. exact node_fin_ok_seen_b_spec. Qed.
+Print Assumptions node_oracle_seen_spec.
+
 Theorem claim_oracle_spec : forall w, claim_fin_ok_b w = true <-> claim_fin_ok w.
 Proof. exact claim_fin_ok_b_spec. Qed.
 Print Assumptions claim_oracle_spec.
 
 (* Non-vacuity: a complete termination in which both finalizers come off, node first, instance gone. *)
 Example happy_path_terminates :
-  launched_persisted happy_w0 /\
+  accounted happy_w0 /\
   w_nodes (run happy_w0 happy_ops) = [] /\ w_claim (run happy_w0 happy_ops) = None /\
   w_inst (run happy_w0 happy_ops) = IGone /\
   snd (step (run happy_w0 (firstn 11 happy_ops)) (RNode 0 None)) = ([EProvDelete PNotFound; ERmNodeFin 0 true], ROk) /\
@@ -113,13 +183,13 @@ Proof. exact happy_path. Qed.
 
 (* Non-vacuity of the not-ready shortcut and of the expired grace period. *)
 Example not_ready_shortcut :
-  node_reconcile (W 1000 [N 0 true true true false false false] None [P 0 0 false false false None []] [] IGone false) 0 None
+  node_reconcile (W 1000 [N 0 true true true false false false] None None [P 0 0 false false false None []] [] IGone false) 0 None
   = ([EProvGet PNotFound; ERmNodeFin 0 true], ROk).
 Proof. vm_compute. reflexivity. Qed.
 
 Example grace_period_skips_attachments :
   node_reconcile (W 1000 [N 0 true true true true true true]
-                    (Some (C true true (Some 900) true true (Some 30) (AAt 930) DTrue VUnknown false))
+                    (Some (C true true (Some 900) true true (Some 30) (AAt 930) DTrue VUnknown false)) None
                     [] [V 0 0 (Some 1)] IGone false) 0 None
   = ([EProvDelete PNotFound; EStatus true DTrue VFalse true; ERmNodeFin 0 true], ROk).
 Proof. vm_compute. reflexivity. Qed.
